@@ -17,6 +17,7 @@ import traceback
 
 import z3
 
+from .ctx import TimeBudget
 from .ctx import CTX, PathEnd, OutOfSubset, Oblig
 from .sym import (SInt, SBool, SStr, SRef, SBV, SReal, PyRaise, mk_int, mk_bool, mk_str, And, Or, Not, implies, ite,
                   _zint, is_sym, BVW)
@@ -567,9 +568,17 @@ def run_sym(h, case_d, timeout_ms=20000, max_paths=None):
     work = [[]]
     limit = max_paths or h.max_paths
     canary_refuted = False
+    # wall-clock budget of one harness case (the slowest case of the pinned tree takes about a minute): a run past it is
+    # undecided -- changed code may send the interpreter into a very long loop or an explosion of paths
+    budget_s = float(os.environ.get("PYVC_CASE_BUDGET_S", "0") or 0) or max(600.0, timeout_ms / 1000.0 * 20)
+    CTX.deadline = t0 + budget_s
+    CTX.ticks = 0
     while work:
         if res.paths >= limit:
             res.undecided.append("path budget %d exhausted" % limit)
+            break
+        if time.time() > CTX.deadline:
+            res.undecided.append("time budget of %d s for one harness case used up after %d paths" % (budget_s, res.paths))
             break
         prefix = work.pop()
         CTX.reset_path(prefix)
@@ -587,6 +596,9 @@ def run_sym(h, case_d, timeout_ms=20000, max_paths=None):
                     canary_refuted = True
             except PathEnd:
                 pass
+            except TimeBudget:
+                res.undecided.append("time budget of %d s for one harness case used up inside path %d" % (budget_s, res.paths))
+                CTX.deadline = 0.0
             except PyRaise as p:
                 r = CTX.solver.check()
                 nm = _CUR["prefix"] + "no-unexpected-exception"
